@@ -319,8 +319,8 @@ class BaseDiscretizer(BaseEstimator, TransformerMixin):
                 # checking for nans in the target
                 assert not any(y.isna()), " - [Discretizer] y should not contain numpy.nan"
 
-                # checking indices
-                assert all(
+                # checking indices (comparing indices of different lengths raises a ValueError)
+                assert len(y.index) == len(X.index) and all(
                     y.index == X.index
                 ), " - [Discretizer] X and y must have the same indices."
 
